@@ -643,12 +643,21 @@ func c08ParseRaces(stderr string) []c08Report {
 }
 
 func c08SpawnRace(seed uint64, tier string, safe bool, rounds, only int, timeout time.Duration) (*c08RaceOut, []c08Report, string) {
+	return c08SpawnChild(true, seed, tier, safe, rounds, only, timeout)
+}
+
+// the stress rounds in a child process: of the race-detector build, or of this binary
+// (a memory-corrupting race can kill the process; the parent then still reports)
+func c08SpawnChild(race bool, seed uint64, tier string, safe bool, rounds, only int, timeout time.Duration) (*c08RaceOut, []c08Report, string) {
 	exe, err := os.Executable()
 	must(err)
-	bin := filepath.Join(filepath.Dir(exe), "harness-race")
-	if _, err := os.Stat(bin); err != nil {
-		fmt.Fprintln(os.Stderr, "harness: the race-detector build run/bin/harness-race is missing:", err)
-		os.Exit(3)
+	bin := exe
+	if race {
+		bin = filepath.Join(filepath.Dir(exe), "harness-race")
+		if _, err := os.Stat(bin); err != nil {
+			fmt.Fprintln(os.Stderr, "harness: the race-detector build run/bin/harness-race is missing:", err)
+			os.Exit(3)
+		}
 	}
 	s := "0"
 	if safe {
@@ -706,9 +715,21 @@ func runC08(r *Run) {
 		r.Extra["shared_groups_in_stress"] = "arbitrary (unsorted, duplicate keys, nil entries, every constructor)"
 	}
 
-	// (ii) stress
+	// (ii) stress: first in a child process of this same binary
 	var st c08Stats
 	rounds := r.N(60, 400)
+	crp := map[string]any{"mode": "child", "seed": r.Seed, "tier": r.Tier, "shared_safe": safe, "rounds": rounds}
+	cout, _, cerr := c08SpawnChild(false, r.Seed-1000003, r.Tier, safe, rounds, -1, time.Duration(r.N(120, 900))*time.Second)
+	if cerr != "" {
+		r.Fail("C08/crash-under-concurrency", "the process died while goroutines were logging concurrently: "+cerr, crp)
+		rounds = 0 // the same rounds would kill this process too
+	} else {
+		for _, f := range cout.Failures {
+			r.Fail(f.Key, "(child process) "+f.Desc, f.Replay)
+		}
+		r.Dist["stress:child rounds"] = cout.Stats.Rounds
+		r.Dist["stress:child payloads checked"] = cout.Stats.Payloads
+	}
 	for i := 0; i < rounds; i++ {
 		rd := c08GenRound(r.Seed, r.Tier, i, safe)
 		obs, admitted, dests := c08RunRound(r, rd, &st)
@@ -755,7 +776,17 @@ func runC08(r *Run) {
 		r.DistinctExtra += out.Stats.Rounds
 	}
 	r.Dist["race:reports"] = len(reports)
+	perKey := map[string]int{}
 	for _, rep := range reports {
+		perKey[rep.Key]++
+		if len(perKey) > 6 && perKey[rep.Key] == 1 {
+			r.Dist["race:further distinct sites (not reported one by one)"]++
+		}
+		if len(perKey) > 6 {
+			if _, seen := r.Dist["oracle_fail:"+rep.Key]; !seen {
+				continue // at most six distinct sites become violations of their own
+			}
+		}
 		x := map[string]any{}
 		for k, v := range rrp {
 			x[k] = v
@@ -764,6 +795,7 @@ func runC08(r *Run) {
 		x["report"] = clip(rep.Text, 6000)
 		r.Fail(rep.Key, "the race detector reports a data race while goroutines log concurrently:\n"+clip(rep.Text, 1500), x)
 	}
+	r.Extra["race_reports_per_site"] = perKey
 }
 
 func c08Bucket(g int) int {
@@ -805,6 +837,11 @@ func replayC08(r *Run, file string) {
 		var st c08Stats
 		for rep := 0; rep < 20 && len(r.Failures) == 0; rep++ { // a schedule cannot be replayed: repeat the round
 			c08RunRound(r, c08GenRound(in.Seed, in.Tier, in.Round, in.SharedSafe), &st)
+		}
+	case "child":
+		_, _, errs := c08SpawnChild(false, in.Seed-1000003, in.Tier, in.SharedSafe, in.Rounds, -1, 900*time.Second)
+		if errs != "" {
+			r.Fail("C08/crash-under-concurrency", errs, nil)
 		}
 	case "race":
 		for rep := 0; rep < 3 && len(r.Failures) == 0; rep++ {
